@@ -167,7 +167,14 @@ pub trait RollingValidNorm<T: IsNone>: Vec1View<T> {
                         (min, min_idx) = (v, end);
                     }
                     if (n >= min_periods) & (max != min) {
-                        ((v - min).f64() / (max - min).f64()).cast()
+                        // the spread of an integer window may exceed the element type:
+                        // only subtract in the element type where the difference fits
+                        let spread = max.f64() - min.f64();
+                        if spread < T::Inner::max_().f64() / 2. {
+                            ((v - min).f64() / (max - min).f64()).cast()
+                        } else {
+                            ((v.f64() - min.f64()) / spread).cast()
+                        }
                     } else {
                         f64::NAN.cast()
                     }
